@@ -290,7 +290,8 @@ class Ctx:
         return p
 
     def violation(self, what, replay_obj, found_input, signature=None):
-        path = self.write_replay("viol", dict(replay_obj, property=self.pid, what=what, failing_input_found=found_input))
+        path = self.write_replay("viol", dict(replay_obj, property=self.pid, what=what, failing_input_found=found_input, seed=self.seed, tier=self.tier,
+                                              replay_note="./check %s %s --replay <this file> re-runs the check with this seed and tier; the scenario / op sequence / expression above is the concrete failing case" % (self.pid, self.tier)))
         self.violations.append(dict(replay=path, found_input=found_input, what=what, signature=signature or what))
 
     def finish(self):
